@@ -14,7 +14,6 @@
 //	tx <auth> <fee> <msg> [<msg> ...]     one transaction; signers are derived from the msgs;
 //	                                      auth = `-` | m<i>:k<j>,...  (master i signs through session key j)
 //	  msgs:  send;m<i>;<acct>;<coins>
-//	         msend;m<i>~<coins>,...;<acct>~<coins>,...
 //	         exec;m<i>;r<j>;noop|fail|grow<n>;<coins>          MsgCall to sink realm j with Send
 //	         run;m<i>;noop|fail|pay@<acct>@<coins>;<coins>     MsgRun; pay = banker.SendCoins from the caller
 //	         addpkg;m<i>;<coins>                               MsgAddPackage (only for session-authorised m<i>)
@@ -300,6 +299,16 @@ type caseState struct {
 	base    [nRealms]int64 // storage size at data length sinkBase (measured at reset)
 	orc     oracle
 	last    snapshot
+	nobs    int
+}
+
+// touch: the observation set of the n-th observed op of the case.
+func (c *caseState) touch(op *txOp) touched {
+	c.nobs++
+	if c.nobs%8 == 1 {
+		return allTouched()
+	}
+	return opTouched(op)
 }
 
 var C *caseState
@@ -352,7 +361,7 @@ func reset() {
 	}
 	c.orc = newOracle()
 	C = c
-	C.last = takeSnapshot()
+	C.last = takeSnapshot(nil, allTouched())
 }
 
 // ---------------------------------------------------------------- observation
@@ -372,16 +381,73 @@ type snapshot struct {
 	sinks [nRealms]int64
 }
 
-func takeSnapshot() snapshot {
+// touched: what an op can have changed according to its own text.  Everything
+// is re-read on every 8th op of a case (and on the first), so a change outside
+// this set still shows up in the dump, a few ops later.
+type touched struct {
+	all     bool
+	accts   map[string]bool
+	masters map[int]bool
+	sinks   map[int]bool
+}
+
+func allTouched() touched { return touched{all: true} }
+
+func opTouched(op *txOp) touched {
+	t := touched{accts: map[string]bool{}, masters: map[int]bool{}, sinks: map[int]bool{}}
+	name := func(a acct) string { return string(a.kind) + strconv.Itoa(a.idx) }
+	if op.kind == "fund" {
+		t.accts[name(op.acct)] = true
+		return t
+	}
+	for _, m := range op.msgs {
+		t.accts["m"+strconv.Itoa(m.from)] = true
+		t.masters[m.from] = true
+		switch m.kind {
+		case "send":
+			t.accts[name(m.to)] = true
+		case "run":
+			if m.fn == "pay" {
+				t.accts[name(m.to)] = true
+			}
+		case "exec":
+			t.sinks[m.realm] = true
+		}
+	}
+	return t
+}
+
+func takeSnapshot(prev *snapshot, t touched) snapshot {
 	s := snapshot{bal: map[string]std.Coins{}}
+	if prev == nil {
+		t.all = true
+	}
 	for i := 0; i < nMasters; i++ {
-		s.bal["m"+strconv.Itoa(i)] = E.balances(C.addr(acct{'m', i}))
+		n := "m" + strconv.Itoa(i)
+		if t.all || t.accts[n] {
+			s.bal[n] = E.balances(C.addr(acct{'m', i}))
+		} else {
+			s.bal[n] = prev.bal[n]
+		}
 	}
 	for i := 0; i < nRcpts; i++ {
-		s.bal["a"+strconv.Itoa(i)] = E.balances(C.addr(acct{'a', i}))
+		n := "a" + strconv.Itoa(i)
+		if t.all || t.accts[n] {
+			s.bal[n] = E.balances(C.addr(acct{'a', i}))
+		} else {
+			s.bal[n] = prev.bal[n]
+		}
 	}
 	for i := 0; i < nMasters; i++ {
 		if C.masters[i] == nil {
+			continue
+		}
+		if !t.all && !t.masters[i] {
+			for _, v := range prev.sess {
+				if v.m == i {
+					s.sess = append(s.sess, v)
+				}
+			}
 			continue
 		}
 		for _, acc := range E.sessions(C.addr(acct{'m', i})) {
@@ -403,7 +469,11 @@ func takeSnapshot() snapshot {
 		return s.sess[a].k < s.sess[b].k
 	})
 	for j := range realmPaths {
-		s.sinks[j] = E.sinkLen(j) - C.base[j] + sinkBase
+		if t.all || t.sinks[j] {
+			s.sinks[j] = E.sinkLen(j) - C.base[j] + sinkBase
+		} else {
+			s.sinks[j] = prev.sinks[j]
+		}
 	}
 	return s
 }
@@ -422,16 +492,24 @@ func coinsStr(cs std.Coins) string {
 func (s snapshot) String() string {
 	var b strings.Builder
 	for i := 0; i < nMasters; i++ {
-		fmt.Fprintf(&b, "m%d[%s] ", i, coinsStr(s.bal["m"+strconv.Itoa(i)]))
+		fmt.Fprintf(&b, "m%d[%s]", i, coinsStr(s.bal["m"+strconv.Itoa(i)]))
 	}
 	for i := 0; i < nRcpts; i++ {
-		fmt.Fprintf(&b, "a%d[%s] ", i, coinsStr(s.bal["a"+strconv.Itoa(i)]))
+		fmt.Fprintf(&b, "a%d[%s]", i, coinsStr(s.bal["a"+strconv.Itoa(i)]))
 	}
 	b.WriteString("|")
-	for _, v := range s.sess {
-		fmt.Fprintf(&b, " s%d.%d[u=%s r=%d q=%d]", v.m, v.k, coinsStr(v.used), v.reset, v.seq)
+	for i, v := range s.sess {
+		if i > 0 {
+			b.WriteString(" ")
+		}
+		// resets are printed relative to t0; an untouched session is abbreviated
+		if len(v.used) == 0 && v.seq == 0 {
+			fmt.Fprintf(&b, "s%d.%d@%d", v.m, v.k, v.reset-t0)
+		} else {
+			fmt.Fprintf(&b, "s%d.%d[u=%s r=%d q=%d]", v.m, v.k, coinsStr(v.used), v.reset-t0, v.seq)
+		}
 	}
-	fmt.Fprintf(&b, " | n=%d,%d,%d,%d", s.sinks[0], s.sinks[1], s.sinks[2], s.sinks[3])
+	fmt.Fprintf(&b, "|n=%d,%d,%d,%d", s.sinks[0], s.sinks[1], s.sinks[2], s.sinks[3])
 	return b.String()
 }
 
@@ -445,6 +523,22 @@ func (s snapshot) findSess(m, k int) (sessView, bool) {
 }
 
 // ---------------------------------------------------------------- exec
+
+var profN int
+var profT [3]time.Duration
+
+func prof(a, b, c time.Duration) {
+	if os.Getenv("C16_PROF") == "" {
+		return
+	}
+	profT[0] += a
+	profT[1] += b
+	profT[2] += c
+	profN++
+	if profN%200 == 0 {
+		fmt.Fprintf(os.Stderr, "prof n=%d build+sign=%v deliver=%v snapshot=%v\n", profN, profT[0], profT[1], profT[2])
+	}
+}
 
 func errClass(e abci.Error) string {
 	if e == nil {
@@ -476,10 +570,11 @@ func exec(toks []string) (string, string) {
 	case "fund":
 		faucet := E.faucet.PubKey().Address()
 		E.faucetTx([]std.Msg{bank.NewMsgSend(faucet, C.addr(op.acct), op.coins)}, C.now)
-		C.last = takeSnapshot()
+		C.last = takeSnapshot(&C.last, C.touch(op))
 		return "ok | " + C.last.String(), "-"
 	}
 	// tx
+	tStart := time.Now()
 	msgs, signers := buildMsgs(op)
 	fee := std.Fee{GasWanted: gasWanted, GasFee: op.fee}
 	ss := make([]signer, len(signers))
@@ -499,14 +594,25 @@ func exec(toks []string) (string, string) {
 			ss[i] = signer{priv: priv, num: ai.num, seq: ai.seq}
 		}
 	}
-	tx := signTx(msgs, fee, ss)
+	// Sign what the chain will verify: the messages as they come out of the amino
+	// round trip (ParseCoins re-sorts coin sets and drops a lone zero coin).  A tx
+	// that does not decode is delivered as it is.
+	var tx std.Tx
+	if err := amino.Unmarshal(amino.MustMarshal(std.NewTx(msgs, fee, make([]std.Signature, len(ss)), "")), &tx); err != nil {
+		tx = signTx(msgs, fee, ss)
+	} else {
+		tx = signTx(tx.Msgs, tx.Fee, ss)
+	}
 	for _, m := range op.msgs {
 		if m.kind == "exec" {
 			dirtySink[m.realm] = true
 		}
 	}
+	tA := time.Now()
 	res := E.deliver(tx, C.now)
-	after := takeSnapshot()
+	tB := time.Now()
+	after := takeSnapshot(&C.last, C.touch(op))
+	prof(tA.Sub(tStart), tB.Sub(tA), time.Since(tB))
 	verdict := C.orc.judge(op, signers, res.Error == nil, C.last, after, C.now)
 	C.last = after
 	if os.Getenv("C16_LOG") != "" && res.Error != nil {
@@ -523,16 +629,6 @@ func buildMsgs(op *txOp) ([]std.Msg, []int) {
 		switch m.kind {
 		case "send":
 			msgs = append(msgs, bank.NewMsgSend(C.addr(acct{'m', m.from}), C.addr(m.to), m.coins))
-		case "msend":
-			var ins []bank.Input
-			var outs []bank.Output
-			for _, in := range m.ins {
-				ins = append(ins, bank.NewInput(C.addr(in.acct), in.coins))
-			}
-			for _, out := range m.outs {
-				outs = append(outs, bank.NewOutput(C.addr(out.acct), out.coins))
-			}
-			msgs = append(msgs, bank.NewMsgMultiSend(ins, outs))
 		case "exec":
 			fn, args := "Noop", []string(nil)
 			switch {
